@@ -504,7 +504,9 @@ func searchPolicy(run *proto.RunRec, a int, est int64) proto.PolicyRec {
 	}
 	nt := len(run.Tasks)
 	p := proto.PolicyRec{Seed: r.next(), EstSteps: est}
-	switch a % 5 {
+	switch a % 6 {
+	case 5:
+		p.Kind, p.Quantum, p.PShared, p.PBound = "quantum", int64(logU(r, 0.5, 3.8)), 0.3*r.f(), 0.5
 	case 0:
 		p.Kind, p.PBound = "seq", 0.5
 	case 1:
